@@ -56,6 +56,8 @@ abbrev SFr := Fr SItem
 
 def logs (n : Nat) : List SFr := List.replicate n (.it .log)
 def errStream : List SFr := [.op, .it .err, .eos]          -- `_write_error_stream`
+/-- `_write_error_stream(..., sink=sink)`: the client logs buffered before the failure, then the error batch -/
+def errStreamL (n : Nat) : List SFr := [.op] ++ logs n ++ [.it .err, .eos]
 
 /-! ## Service -/
 
@@ -96,17 +98,18 @@ inductive Cont where
 deriving Repr, DecidableEq
 
 /-- `OutputCollector` + `_flush_collector` + the loop's `except Exception` (same rules as Engine.processStep /
-processExchangeStep): what one `process()` call puts on the output stream -/
-def stepOut (ex : Bool) (s : StepB) : Cont × List SItem :=
+processExchangeStep): what one `process()` call puts on the output stream.  `fl`: a failing call's log batches are
+written ahead of its error batch (`_flush_collector_logs`); else they are dropped with the collector. -/
+def stepOut (fl : Bool) (ex : Bool) (s : StepB) : Cont × List SItem :=
   let lg (n : Nat) : List SItem := List.replicate n .log
   match s.act, ex with
   | .emit, _ => (.cont, lg s.pre ++ [.data] ++ lg s.post)
   | .finish, false => (.done, lg s.pre ++ lg s.post)
   | .emitFinish, false => (.done, lg s.pre ++ [.data] ++ lg s.post)
-  | .finish, true => (.fail, [.err])
-  | .emitFinish, true => (.fail, [.err])
-  | .raise, _ => (.fail, [.err])
-  | .nothing, _ => (.fail, [.err])
+  | .finish, true => (.fail, (if fl then lg s.pre ++ lg s.post else []) ++ [.err])      -- finish() raises on an exchange
+  | .emitFinish, true => (.fail, (if fl then lg s.pre ++ lg s.post else []) ++ [.err])
+  | .raise, _ => (.fail, (if fl then lg s.pre else []) ++ [.err])
+  | .nothing, _ => (.fail, (if fl then lg s.pre else []) ++ [.err])
 
 /-! ## Server -/
 
@@ -148,7 +151,8 @@ def dispatch (sh : Shape) (svc : Svc) (r : Request) : SrvPc × List SFr :=
       | .unary n raises => (.boundary, [.op] ++ logs n ++ [.it (if raises then .err else .data), .eos])
       | .stream ex hdr il init steps =>
         if initFails hdr init then
-          if init = .raises || sh.initChecks then (refuse sh.drainInit m, errStream)
+          if init = .raises || sh.initChecks then
+            (refuse sh.drainInit m, if sh.initErrorFlushesLogs then errStreamL il else errStream)
           else (.dead, [])                       -- AttributeError / TypeError outside every handler: `serve` dies, no reply
         else (.inOpen ex hdr il steps, if hdr then [.op] ++ logs il ++ [.it .data, .eos] else [])
 
@@ -175,7 +179,7 @@ def srvOn (sh : Shape) (svc : Svc) : SrvPc → CFr → SrvPc × List SFr
   | .inOpen _ _ _ _, _ => (.dead, [])
   | .loop _ _ _, .it .cancel => (.finDrain, [.eos])
   | .loop ex steps k, .it _ =>
-      match stepOut ex (stepAt ex steps k) with
+      match stepOut sh.failFlushesLogs ex (stepAt ex steps k) with
       | (.cont, out) => (.loop ex steps (k + 1), out.map .it)
       | (_, out) => (.finDrain, out.map .it ++ [.eos])
   | .loop _ _ _, .eos => (.boundary, [.eos])                  -- input ended: output EOS; the final drain finds the reader exhausted
